@@ -474,6 +474,108 @@ static void scenarioSpaces(vt::Trace &tr, int threads, long calls)
     tr.emit(json{{"e", "SpaceNames"}, {"n", (int)names.size()}, {"distinct", (int)d.size()}});
 }
 
+// logging from several threads while other threads switch the output handler and the log level.  The handler's own
+// log() is the linearization point: the library calls it while it still holds the console lock, so what the handler
+// sees there through the public getters IS the state its message was filtered against - it must be the installed
+// handler, and the message must not lie below the level.  Handlers stall inside log() (the lock is held meanwhile), so
+// that loggers and switchers queue up behind each other: a log call that decided before it owned the lock is overtaken.
+struct ProbeHandler : public ompl::msg::OutputHandler
+{
+    std::atomic<long> delivered{0}, stale{0}, belowLevel{0}, overlap{0};
+    std::atomic<int> inside{0};
+    static std::atomic<int> &insideAny()
+    {
+        static std::atomic<int> v{0};
+        return v;
+    }
+    void log(const std::string &text, ompl::msg::LogLevel level, const char *, int) override
+    {
+        if (insideAny().fetch_add(1) != 0)
+            ++overlap;  // two handler calls at once: the handler I/O is not serialized
+        ++delivered;
+        if (ompl::msg::getOutputHandler() != this)
+            ++stale;
+        // (getLogLevel() takes the console lock itself and cannot be asked from in here; the level is judged against
+        //  the lowest level any switcher ever sets)
+        if (level < ompl::msg::LOG_INFO)
+            ++belowLevel;
+        if (!text.empty() && text[0] == 's')
+            std::this_thread::sleep_for(std::chrono::microseconds(300));
+        insideAny().fetch_sub(1);
+    }
+};
+
+static void scenarioConsole(vt::Trace &tr, int threads, long calls)
+{
+    ProbeHandler h1, h2;
+    ompl::msg::setLogLevel(ompl::msg::LOG_INFO);
+    ompl::msg::useOutputHandler(&h1);
+    std::atomic<long> switches{0}, logs{0};
+    std::atomic<int> switchersDone{0};
+    const int loggers = std::max(2, threads - 2);
+    parallel(threads, [&](int i) {
+        vt::Rng r(vt::envSeed() * 31 + i);
+        if (i < loggers)
+            // loggers keep logging for as long as the switchers work (a log call that is filtered out costs
+            // nanoseconds: a fixed number of calls would be over before the second switch)
+            for (long k = 0; switchersDone.load() < threads - loggers; ++k)
+            {
+                // 's' messages make the handler stall with the lock held; the levels straddle the threshold
+                switch (r.below(4))
+                {
+                    case 0:
+                        OMPL_INFORM("s%ld", k);
+                        break;
+                    case 1:
+                        OMPL_WARN("w%ld", k);
+                        break;
+                    case 2:
+                        OMPL_DEBUG("d%ld", k);
+                        break;
+                    default:
+                        OMPL_ERROR("s%ld", k);
+                }
+                ++logs;
+                if (k % 8 == 7)   // leave the lock alone now and then, or the switchers starve behind the stalls
+                    std::this_thread::sleep_for(std::chrono::microseconds(150));
+            }
+        else
+            for (long k = 0; k < calls; ++k)
+            {
+                switch (r.below(6))
+                {
+                    case 0:
+                        ompl::msg::useOutputHandler(&h1);
+                        break;
+                    case 1:
+                        ompl::msg::useOutputHandler(&h2);
+                        break;
+                    case 2:
+                        ompl::msg::noOutputHandler();
+                        break;
+                    case 3:
+                        ompl::msg::restorePreviousOutputHandler();
+                        break;
+                    case 4:
+                        ompl::msg::setLogLevel(ompl::msg::LOG_WARN);
+                        break;
+                    default:
+                        ompl::msg::setLogLevel(ompl::msg::LOG_INFO);
+                }
+                ++switches;
+                std::this_thread::sleep_for(std::chrono::microseconds(50 + r.below(200)));
+            }
+        if (i >= loggers)
+            ++switchersDone;
+    });
+    ompl::msg::noOutputHandler();
+    ompl::msg::setLogLevel(ompl::msg::LOG_NONE);
+    flush(tr, "console");
+    tr.emit(json{{"e", "ConsoleLog"}, {"logs", vt::tlcInt(logs.load())}, {"switches", vt::tlcInt(switches.load())},
+                 {"delivered", vt::tlcInt(h1.delivered + h2.delivered)}, {"stale", vt::tlcInt(h1.stale + h2.stale)},
+                 {"belowLevel", vt::tlcInt(h1.belowLevel + h2.belowLevel)}, {"overlap", vt::tlcInt(h1.overlap + h2.overlap)}});
+}
+
 int main(int argc, char **argv)
 {
     vt::installCrashHandlers();
@@ -502,6 +604,8 @@ int main(int argc, char **argv)
         scenarioGnat(tr, threads, calls);
     else if (sc == "solutions")
         scenarioSolutions(tr, threads, calls);
+    else if (sc == "console")
+        scenarioConsole(tr, threads, calls);
     else if (sc == "rng")
         scenarioRng(tr, threads, calls);
     else if (sc == "spaces")
